@@ -86,8 +86,10 @@ def alt_frame():
     return _FR["alt"]
 
 
-ATOMS = {"f": "f", "g": "g", "x": "x", "z": "z", "k": "C(k)", "h": "h"}
-CATS = {"f", "g", "k", "h"}
+ATOMS = {"f": "f", "g": "g", "x": "x", "z": "z", "k": "C(k)", "h": "h", "t": "T(f, 'fb')"}
+CATS = {"f", "g", "k", "h", "t"}
+NAME2COL = {"C(k)": "k", "T(f, 'fb')": "f"}
+EXPLICIT_REF = {"T(f, 'fb')": "fb"}
 
 
 def term_text(t):
@@ -98,8 +100,8 @@ def gen_formulas():
     out = []
     vars_ = ["f", "g", "x", "z"]
     tuples = [list(p) for n in (2, 3) for p in itertools.permutations(vars_, n)]
-    tuples += [["k", "f"], ["f", "k"], ["k", "x"], ["x", "k"], ["g", "k", "x"], ["k", "f", "g"]]
-    mains = [["f"], ["g"], ["x"], ["k"]]
+    tuples += [["k", "f"], ["f", "k"], ["k", "x"], ["x", "k"], ["g", "k", "x"], ["k", "f", "g"], ["t", "g"], ["g", "t"], ["t", "x"], ["x", "t", "g"]]
+    mains = [["f"], ["g"], ["x"], ["k"], ["t"]]
     for resp in ("y",):
         for icpt in (True, False):
             for t in mains:
@@ -173,7 +175,7 @@ def expand(unit):
 
 
 def col_of(df, atom):
-    return df["k" if atom == "C(k)" else atom]
+    return df[NAME2COL.get(atom, atom)]
 
 
 def piece_value(piece, df, order, names):
@@ -220,8 +222,12 @@ def check_labels(labels, M, df, order, comp_names, what, problems, group=False, 
     if len(set(labels)) != len(labels):
         problems.append(("labels-unique", f"{what}: duplicate labels {labels}"))
     for var, lv in seq.items():
-        key = "k" if var == "C(k)" else var
+        key = NAME2COL.get(var, var)
         exp = [str(l) for l in order[key]]
+        if var in EXPLICIT_REF and len(lv) == len(exp) - 1:
+            if lv != [l for l in exp if l != EXPLICIT_REF[var]]:
+                problems.append(("reference-level", f"{what}: reduced coding of {var} shows {lv}; the requested reference {EXPLICIT_REF[var]} should be the omitted one"))
+            continue
         sub = [l for l in exp if l in lv]
         if lv != sub:
             problems.append(("level-order", f"{what}: levels of {var} appear as {lv}, expected order {exp}"))
@@ -233,7 +239,7 @@ def check_labels(labels, M, df, order, comp_names, what, problems, group=False, 
 
 def verify(dm, c, df, order):
     problems = []
-    names = ["x", "z", "f", "g", "h", "C(k)", "yc", "y"]
+    names = ["x", "z", "T(f, 'fb')", "f", "g", "h", "C(k)", "yc", "y"]
     if c["common"] or c["icpt"]:
         if dm.common is None:
             problems.append(("count", "no common matrix"))
@@ -285,6 +291,9 @@ def check_case(case, acc):
     c = case["f"]
     df, order = frame(case["n"], case["variant"], case["rot"])
     f = formula_of(c)
+    if case["variant"] == "unused" and "T(f" in f:
+        acc.case([f, case["n"], case["variant"], case["rot"]], "not-encodable")  # C()/T() of an ordered column declaring an unobserved level is refused
+        return
     acc.calls += 1
     acc.traces += 1
     try:
